@@ -438,4 +438,12 @@ func sweepDiff(pre, post []string, repo string) string {
 	return ""
 }
 
-func TestUpgrade(t *testing.T) { Sim(t, upgradeBody) }
+func TestUpgrade(t *testing.T) {
+	Sim(t, func(r *Run) {
+		if Weighted(r.T, "scenario", []int{65, 35}) == 0 {
+			upgradeBody(r)
+		} else {
+			upgradeDumpBody(r)
+		}
+	})
+}
